@@ -120,7 +120,7 @@ fn diff_write_session(m: &VfsPath, p: &VfsPath, path: &str, initial: &[u8], appe
     let (hm, hp) = if append { (pm.append_file(), pp.append_file()) } else { (pm.create_file(), pp.create_file()) };
     let what = if append { "append_file" } else { "create_file" };
     let (mut hm, mut hp) = match (hm, hp) {
-        (Ok(a), Ok(b)) => (a, b),
+        (Ok(a), Ok(b)) => (crate::util::hold(a), crate::util::hold(b)),
         (Err(_), Err(_)) => return Ok(()),
         (a, b) => return Err(format!("{}('{}') handle: MemoryFS {} but PhysicalFS {}", what, path, if a.is_ok() { "opens" } else { "fails" }, if b.is_ok() { "opens" } else { "fails" })),
     };
